@@ -148,11 +148,12 @@ func evalCase(c *Case) (string, string) {
 		return "bad-case", perr.Error()
 	}
 	got := norm(rr.Document).(map[string]interface{})
-	if _, leaked := got["publicKey"]; leaked {
-		return "C19/internal-section-leaked", "external document contains the internal publicKey section: " + js(got)
-	}
-	if !reflect.DeepEqual(got, norm(want)) {
-		return "C19/projection-mismatch", fmt.Sprintf("external document differs from the independent projection on %v: got %s want %s (internal %s)", diffKeys(got, norm(want).(map[string]interface{})), js(got), js(want), before)
+	if d := refdoc.DiffExternal(got, norm(want).(map[string]interface{})); len(d) > 0 {
+		kind := "C19/projection-mismatch"
+		if len(d) == 1 && d[0] == "publicKey(leaked)" {
+			kind = "C19/internal-section-leaked"
+		}
+		return kind, fmt.Sprintf("external document differs from the independent projection on %v: got %s want %s (internal %s)", d, js(got), js(want), before)
 	}
 	if rr.Context != "https://w3id.org/did-resolution/v1" {
 		return "C19/projection-mismatch", fmt.Sprintf("resolution context %v", rr.Context)
@@ -168,8 +169,8 @@ func evalCase(c *Case) (string, string) {
 		delete(method, "unpublishedOperations")
 	}
 	wm := refdoc.Metadata(refdoc.Model{Update: c.Update, Recovery: c.Recovery, AnchorOrigin: c.AnchorOrigin, Deactivated: c.Deactivated, VersionID: c.VersionID, CreatedTime: c.Created, UpdatedTime: c.Updated}, info)
-	if !reflect.DeepEqual(gm, norm(wm)) {
-		return "C19/metadata-mismatch", fmt.Sprintf("document metadata differs from the model on %v: got %s want %s", diffKeys(gm, norm(wm).(map[string]interface{})), js(gm), js(wm))
+	if d := refdoc.DiffMetadata(gm, norm(wm).(map[string]interface{})); len(d) > 0 {
+		return "C19/metadata-mismatch", fmt.Sprintf("document metadata differs from the model on %v: got %s want %s", d, js(gm), js(wm))
 	}
 	// operation lists: present iff enabled and non-empty; published one entry per canonical reference in (time, number) order
 	wantPub := 0
